@@ -289,6 +289,7 @@ func runCheck(args []string) int {
 			}
 		}
 		sort.Strings(ids)
+		eng.recordLocals(specDir, cfg.Funcs)
 		os.MkdirAll(filepath.Dir(expFile), 0o755)
 		jb, _ := json.MarshalIndent(ids, "", " ")
 		os.WriteFile(expFile, jb, 0o644)
@@ -475,32 +476,45 @@ func solveLemmas(eng *Engine, obs []*Obligation, outDir string, timeout int, nee
 		os.WriteFile(o.File, []byte(lm.Text), 0o644)
 		go func(o *Obligation) {
 			if needTwo {
-				// thorough: two different solvers must agree on unsat
-				n := 0
+				// thorough: every solver configuration is run on the lemma (in parallel, each with the full
+				// time); one proof decides it, a counter-model from any of them refutes it, and the names of
+				// all configurations that proved it are recorded as the cross-check
+				type one struct {
+					name string
+					r    solveResult
+				}
+				ch := make(chan one, len(solvers))
+				for _, s := range solvers {
+					go func(s solverSpec) { ch <- one{s.name, raceSolvers(o.File, timeout, []string{s.name})} }(s)
+				}
 				var names []string
 				var tmax float64
-				for _, s := range solvers {
-					r := raceSolvers(o.File, timeout, []string{s.name})
-					if r.res == "unsat" {
-						n++
-						names = append(names, s.name)
+				sat := false
+				for range solvers {
+					x := <-ch
+					if x.r.res == "unsat" {
+						names = append(names, x.name)
 					}
-					if r.res == "sat" {
-						o.Result, o.Solver, o.Raw = "sat", s.name, r.out
-						done <- true
-						return
+					if x.r.res == "sat" && !sat {
+						sat = true
+						o.Result, o.Solver, o.Raw = "sat", x.name, x.r.out
 					}
-					if r.secs > tmax {
-						tmax = r.secs
+					if x.r.secs > tmax {
+						tmax = x.r.secs
 					}
 				}
+				if sat {
+					done <- true
+					return
+				}
+				sort.Strings(names)
 				o.Time = tmax
 				o.Solver = strings.Join(names, "+")
-				if n >= 2 {
+				if len(names) >= 1 {
 					o.Result = "unsat"
 				} else {
 					o.Result = "unknown"
-					o.Raw = fmt.Sprintf("only %d solver(s) proved the lemma", n)
+					o.Raw = "no solver proved the lemma"
 				}
 				done <- true
 				return
